@@ -456,4 +456,63 @@ def rule_runs_not_chunks(ctx):
     r.floor(1)
 
 
-RULES = [rule_cap_on_every_newline, rule_cap_after_inserts, rule_guard_coverage, rule_eof_families, rule_eat_blanks, rule_runs_not_chunks]
+LEVEL_KIND = {"GetLevel": "level", "GetBraceLevel": "brace level", "GetPpLevel": "preprocessor level"}
+
+
+def _level_kind(f, rd, i, at, depth=0):
+    n = f.nodes.get(i)
+    while n is not None and n["k"] == "cast":
+        n = f.nodes.get(n["a"][0])
+    if n is None:
+        return set()
+    if n["k"] == "call":
+        b = (n.get("c") or "").split("::")[-1]
+        return {(LEVEL_KIND[b], expr_str(f, n["o"]) if "o" in n else "?")} if b in LEVEL_KIND and not n.get("a") else set()
+    if n["k"] == "bin" and n["op"] in ("+", "-"):
+        return _level_kind(f, rd, n["a"][0], at, depth) | _level_kind(f, rd, n["a"][1], at, depth)
+    if n["k"] == "ref" and n.get("d") in ("lv", "pv") and depth < 3:
+        out = set()
+        for info in rd.at(at, var_id(n)):
+            rhs = rd.rhs_of(info)
+            if rhs is not None:
+                out |= set((k, "var " + n["n"]) for k, _ in _level_kind(f, rd, rhs, info[1]["i"], depth + 1))
+        return out
+    return set()
+
+
+def rule_scan_level_agreement(ctx):
+    """the newline passes find the end of the region they work on (a function body, a block, an enum) by comparing levels: a
+    scan that takes its level from one accessor and matches with another runs past its closing brace for every body that sits
+    inside parentheses, and the counts it sets (nl_max_blank_in_func, ...) then reach the rest of the file, its end included"""
+    db = ctx.db
+    r = ctx.rule("scan-level-agreement", "in src/newlines/ every comparison between two level values uses the same accessor on both sides "
+                 "(GetLevel / GetBraceLevel / GetPpLevel, followed through locals); the one mixed form is `x->GetLevel() <op> x->GetBraceLevel()` "
+                 "on the same chunk (the `inside parentheses` test)")
+    n_cmp = 0
+    for f in sorted(db.funcs.values(), key=lambda g: (g.file, g.l0)):
+        if not f.file.startswith("src/newlines/"):
+            continue
+        rd = None
+        for n in f.all_nodes():
+            if n["k"] != "bin" or n["op"] not in ("==", "!=", "<", ">", "<=", ">="):
+                continue
+            if "evel" not in expr_str(f, n["i"]):
+                continue
+            if rd is None:
+                rd = ReachingDefs(f, db)
+            a = _level_kind(f, rd, n["a"][0], n["i"])
+            b = _level_kind(f, rd, n["a"][1], n["i"])
+            if not a or not b:
+                continue
+            n_cmp += 1
+            r.seen()
+            ka, kb = set(k for k, _ in a), set(k for k, _ in b)
+            same_chunk = len(a) == 1 and len(b) == 1 and next(iter(a))[1] == next(iter(b))[1] and not next(iter(a))[1].startswith("var ")
+            r.check(ka == kb or same_chunk, "%s/%s" % (f.qn.split("::")[-1], expr_str(f, n["i"])[:60]), db.loc(f, n),
+                    "`%s` compares a %s with a %s: for a chunk inside parentheses the two differ, the scan does not stop at the brace it started from"
+                    % (expr_str(f, n["i"]), "/".join(sorted(ka)), "/".join(sorted(kb))))
+    r.require(n_cmp >= 30, "only %d level comparisons found in src/newlines/" % n_cmp)
+    r.floor(30)
+
+
+RULES = [rule_cap_on_every_newline, rule_cap_after_inserts, rule_guard_coverage, rule_eof_families, rule_eat_blanks, rule_runs_not_chunks, rule_scan_level_agreement]
